@@ -469,6 +469,10 @@ def run_scenario(sc):
     pf = ss.PFlow.run()
     tr = Tracer(ss, sc)
     tr.install()
+    if sc.get("explicit_init"):
+        # the user initialises first (to look at the initial values) and runs afterwards
+        ss.TDS.config.tf = sc["segs"][0]
+        ss.TDS.init()
     for k, tf in enumerate(sc["segs"]):
         tr.run_segment(tf, k + 1)
         if sc.get("snapshot") and k + 1 < len(sc["segs"]):
